@@ -347,16 +347,32 @@ def hostile(m):
 
 
 def concurrent(m, ctx, nproc, n):
-    lst, d, val, lock = m.list(), m.dict(), m.Value('i', 0), m.Lock()
-    ps = [ctx.Process(target=targets.mgr_appender, args=(lst, d, val, lock, n, w)) for w in range(nproc)]
+    lst, d, val, lock, errs = m.list(), m.dict(), m.Value('i', 0), m.Lock(), m.list()
+    len(lst)          # this thread has talked to the server before its children are forked
+    ps = [ctx.Process(target=targets.mgr_appender, args=(lst, d, val, lock, n, w, errs)) for w in range(nproc)]
     for p in ps:
         p.start()
+    # the parent is a client like the others, at the same time, from the thread that forked them
+    th_err = []
+
+    def own():
+        try:
+            targets.mgr_appender(lst, d, val, lock, n, nproc, errs)
+        except Exception as exc:      # noqa
+            th_err.append('%s: %s' % (type(exc).__name__, str(exc)[:100]))
+    own()
     for p in ps:
         p.join(120)
+    stuck = [p.pid for p in ps if p.exitcode is None]
+    for p in ps:
+        if p.exitcode is None:
+            p.terminate()
     got = list(lst)
-    perwho_ok = all([k for (w, k) in got if w == who] == list(range(n)) for who in range(nproc))
-    return {'len': len(got), 'distinct': len(set(got)), 'dict': len(d), 'value': val.value,
-            'expected': nproc * n, 'per_client_order': perwho_ok}
+    perwho_ok = all([k for (w, k) in got if w == who] == list(range(n)) for who in range(nproc + 1))
+    return {'len': len(got), 'distinct': len(set(got)), 'dict': len(d) - (nproc + 1), 'value': val.value,
+            'expected': (nproc + 1) * n, 'per_client_order': perwho_ok,
+            'crossed_replies': [list(e) for e in list(errs)[:10]] + th_err, 'stuck': stuck,
+            'exitcodes': [p.exitcode for p in ps]}
 
 
 def wrong_key(m):
